@@ -1,6 +1,8 @@
 """C09 -- tail calls are free and invisible.
 
-spec: ZSem (no tail-call optimisation: the transparency oracle), TailTrace (space law)
+spec: ZSem (no tail-call optimisation: the transparency oracle), TailTrace (space law);
+      TailTwin (the property as a relation between one function with and without the optimisation: Invisible, Space),
+      MCTailTwin (abstract machine pair explored by TLC against those laws), TailTwinTrace
 bind: every nesting (depth <= 2, thorough 3) of the tail contexts {cond arm, cond default, begin, let, letseq,
       newScope, and, or} x body features {plain, local definition, inner scope, non-tail self call, closure
       creation}:
@@ -8,8 +10,17 @@ bind: every nesting (depth <= 2, thorough 3) of the tail contexts {cond arm, con
           validated by TLC against ZSem;
       (b) n = 10 .. 10^4 (some 10^5): value and high-water marks of the data/scope/address stacks sampled at
           every VM step (verif hook), validated by TLC against TailTrace (marks independent of n).
+      (c) family tailtwin, for what ZSem does not have: definition kinds {defn, typed func, (def f (fn ..)), (set f (fn ..)),
+          lazy formal, variadic} x other meanings of the name f (earlier / inner definitions with other formals) x forms
+          of the self call (named, ill-typed, empty, too few/many arguments, closures, a re-binding argument ...) x the
+          special form the call sits in (the property's tail contexts AND return, def/set targets, include, arrays,
+          macros, loops, quasi-quotes ...) x enclosing tail contexts x body features x re-bindings of the name before
+          the call.  Every program runs in its optimised form and in the reference forms (self call through an alias /
+          through a computed callee: the ordinary call path); value or error, effect trace, rest state of the four
+          stacks and the user's globals are judged by TLC against TailTwin!Invisible; the optimised form at
+          n = 10, 100, 400 (high-water marks, interned symbols) against TailTwin!Space.
 """
-import json, os
+import collections, json, os
 import vlib, flow, semflow
 
 PROP = "C09"
@@ -28,24 +39,93 @@ def run():
     vlib.run_zv(zv, "tail", ["-mode", "space"], t2, timeout=3000)
     c2, v2 = flow.validate(out, "tail", "TailTrace.tla", "TailTrace.cfg", t2, zv, replay_args=["-mode", "space"])
     maxn = max(r["n"] for c in c2.values() for r in c["runs"])
+    tw = _twin(out, zv)
     cov = {
         "states": out.states, "transitions": out.transitions,
-        "traces_validated_against_impl": len(c1) - len(skipped) + len(c2),
+        "traces_validated_against_impl": len(c1) - len(skipped) + len(c2) + tw["invisible_judged"] + tw["space_cases"],
         "transparency_cases": len(c1), "transparency_not_judged": len(skipped),
         "space_shapes": len(c2), "space_runs": sum(len(c["runs"]) for c in c2.values()), "max_depth_n": maxn,
         "samples": [{"text": c["text"], "runs": c["runs"]} for c in list(c2.values())[:2]] +
                    [{"text": c["text"], "out": c["out"], "fx": c["fx"][:6]} for c in list(c1.values())[:1]],
         "exhaustive": True,
+        "twin": tw,
         "rule": "all nestings of the 8 tail contexts to depth 2 (thorough: 3) x 5 body features; per shape n=0..3 against the "
                 "reference semantics and n=10..1000 (some 10^4; thorough: 10^4, some 10^5) for the high-water marks",
     }
     return flow.finish(out, "model_checking", cov, semflow.SEM_ASSUMPTIONS + [
         "space is judged on VM stack entries (data, scope, address stacks) sampled by the verif step hook, not on bytes",
+        "tailtwin: 'the same function evaluated without the optimisation' is the same program text whose self call names its "
+        "callee through an alias (def g f) or a computed callee ((begin f) ...), which the compiler does not recognise as a "
+        "self call; a program on which the two reference forms disagree with each other is not judged",
+        "tailtwin: errors are compared as 'some error'; hooks of the embedding program that report calls themselves "
+        "(AddPreHook/AddPostHook, stack traces) are instruments, not effects of the program",
     ])
+
+
+def _devs():
+    if os.environ.get("VERIF_DEVS") is not None:      # development aid
+        return os.environ["VERIF_DEVS"]
+    return ",".join(k["id"] for k in vlib.known_findings(PROP)) or "none"
+
+
+def _twin(out, zv):
+    """the second oracle: optimised form vs alias / computed-callee form (TailTwin)"""
+    thorough = vlib.tier() == "thorough"
+    runs = [{"module": "MCTailTwin.tla", "cfg": "MCTailTwin.cfg"},
+            {"module": "MCTailTwin.tla", "cfg": "MCTailTwinReuse.cfg", "expect": "violation"},
+            {"module": "MCTailTwin.tla", "cfg": "MCTailTwinLeakKnown.cfg"}]
+    if thorough:
+        runs += [{"module": "MCTailTwin.tla", "cfg": "MCTailTwinKeep.cfg", "expect": "violation"},
+                 {"module": "MCTailTwin.tla", "cfg": "MCTailTwinLeak.cfg", "expect": "violation"}]
+    flow.mc_runs(out, runs)
+    env = {"VERIF_DEVS": _devs()}
+    t3 = os.path.join(vlib.scratch(), "twininv.ndjson")
+    vlib.run_zv(zv, "tailtwin", ["-mode", "inv"], t3)
+    c3, v3 = flow.validate(out, "tailtwin", "TailTwinTrace.tla", "TailTwinTrace.cfg", t3, zv, replay_args=["-mode", "inv"], env=env)
+    skipped = [i for i in c3 if v3[i][0] == "skip"]
+    if len(skipped) > len(c3) // 20:
+        raise vlib.Inconclusive("%d of %d twin programs not judged (the reference forms disagree)" % (len(skipped), len(c3)))
+    t4 = os.path.join(vlib.scratch(), "twinspace.ndjson")
+    vlib.run_zv(zv, "tailtwin", ["-mode", "space"], t4, timeout=3000)
+    c4, v4 = flow.validate(out, "tailtwin", "TailTwinTrace.tla", "TailTwinTrace.cfg", t4, zv, replay_args=["-mode", "space"], env=env)
+    dims = lambda cs, k: len(set(c["spec"][k] for c in cs.values()))
+    # what kinds of programs were rejected (only the first rejections are confirmed and reported one by one)
+    kinds = collections.Counter()
+    for cs, vs in ((c3, v3), (c4, v4)):
+        for i, c in cs.items():
+            if vs[i][0] == "bad":
+                sp = c["spec"]
+                kinds["%s %s: %s/%s/%s/%s%s" % (c["kind"], vs[i][1].split(",")[0].strip(' "'), sp["dk"], sp["shadow"], sp["cf"], sp["pos"],
+                                              "/rebind" if sp["rebind"] >= 0 else "")] += 1
+    for k, n in sorted(kinds.items())[:200]:
+        vlib.log("  tailtwin rejected: %3d x %s" % (n, k))
+    some = list(c3.values())[:1]
+    return {
+        "invisible_programs": len(c3), "invisible_judged": len(c3) - len(skipped), "invisible_not_judged": len(skipped),
+        "runs_per_program": "optimised + alias + computed-callee form, depths %s" % (some[0]["ns"] if some else []),
+        "definition_kinds": dims(c3, "dk"), "shadows": dims(c3, "shadow"), "call_forms": dims(c3, "cf"),
+        "positions": dims(c3, "pos"), "contexts": dims(c3, "ctxs"), "features": dims(c3, "feat"),
+        "rebind_programs": sum(1 for c in c3.values() if c["spec"]["rebind"] >= 0),
+        "space_cases": len(c4), "space_max_depth_n": max(r["n"] for c in c4.values() for r in c["runs"]),
+        "samples": [{"text": c["opt"]["text"], "calls": c["calls"], "opt": c["opt"]["obs"][-1]["out"],
+                     "alias": c["alias"]["obs"][-1]["out"] if "alias" in c else "-"} for c in some] +
+                   [{"text": c["text"], "runs": c["runs"]} for c in list(c4.values())[:1]],
+    }
 
 
 def replay(path):
     rec = json.load(open(path))
+    if "kind" in rec["case"] and rec["case"]["kind"] in ("inv", "space"):
+        zv = vlib.build_zv()
+        rp = os.path.join(vlib.scratch(), "r.ndjson")
+        open(rp, "w").write(json.dumps(rec["case"]) + "\n")
+        fresh = os.path.join(vlib.scratch(), "fresh.ndjson")
+        vlib.run_zv1(zv, "tailtwin", ["-replay", rp], out=fresh, timeout=3000)
+        v, _ = vlib.validate_trace("TailTwinTrace.tla", "TailTwinTrace.cfg", fresh, env={"VERIF_DEVS": _devs()})
+        bad = [i for i in v if v[i][0] == "bad"]
+        for i in bad:
+            print("VIOLATION property=%s replay=%s" % (PROP, path))
+        return 1 if bad else 0
     if "runs" in rec["case"]:
         zv = vlib.build_zv()
         rp = os.path.join(vlib.scratch(), "r.ndjson")
